@@ -763,6 +763,7 @@ fn dump_crate<'tcx>(tcx: TyCtxt<'tcx>, name: &str) -> J {
             ("overflow_checks", J::Bool(sess.overflow_checks())),
             ("test", J::Bool(sess.is_test_crate())),
             ("opt", J::Str(format!("{:?}", sess.opts.optimize))),
+            ("panic", J::Str(format!("{:?}", sess.panic_strategy()))),
         ])),
         ("n_fn_bodies", J::Int(n_fn as i128)),
         ("adts", J::Arr(adts)),
